@@ -13,7 +13,9 @@ class Tripper:
     of being carried out.  The rate functions themselves stay untouched (they are translated
     to SBML / source code elsewhere, so they must stay plain)."""
 
-    METHODS = ("update_parameters", "get_args_time_course", "get_right_hand_side_time_course", "get_stoichiometries_of_variable", "get_parameter_values")
+    # only the evaluations (where the time goes): an interrupt that lands inside the library's own
+    # clean-up (the restoring update_parameters call in a finally block) cannot be defended against
+    METHODS = ("get_args_time_course", "get_right_hand_side_time_course", "get_stoichiometries_of_variable")
 
     def __init__(self, model, k: int) -> None:  # noqa: ANN001
         self.model = model
